@@ -181,7 +181,7 @@ type c15State struct {
 	nbatch  int
 	// stats
 	staleRead, seeks, ffPrefix, emptyVal, mergeAbsent, reopens, multigets, dupSkipped int
-	lastMod                                                               map[string]int // key -> batch number of the last modification
+	lastMod                                                                           map[string]int // key -> batch number of the last modification
 }
 
 func (st *c15State) checkIter(it store.KVIterator, keys []string, snap kvModel, pos int, what string) {
